@@ -281,8 +281,11 @@ func TestVerifC01(t *testing.T) {
 				p, e := 1, 1
 				if thorough {
 					p, e = 2, 1
-					if c.q == 1 && !c.faults && (sc.name == "S1" || sc.name == "S3" || sc.name == "S5") {
+					if c.q == 1 && !c.faults && !c.blocking && (sc.name == "S3" || sc.name == "S5") {
 						e = 2 // smallest configurations: one more environment deviation
+					}
+					if sc.name == "S8" || sc.name == "S2" || (c.blocking && (sc.name == "S1" || sc.name == "S4")) {
+						p, e = 1, 1 // the largest drivers (3 spans + 2 flushes, blocking producers): measured > 40 CPU-minutes at (2,1)
 					}
 				}
 				r.Bound("max_preemptions", p)
